@@ -42,6 +42,90 @@ pub fn base_block(n: usize, with_gt: bool) -> Result<(World, usize), String> {
     Ok((w, b))
 }
 
+/// The chain summary a real full node sends a light client: a FullNode holding a 12-block chain
+/// (older blocks have dropped their transactions from memory) with payments to the client's key in
+/// an old and in a recent block answers the client's GhostChainRequest; each flag of the answer
+/// must say whether the lite block of that height carries a transaction for the client's key.
+fn chain_summary(rep: &mut Report) {
+    use crate::fullnode::FullNode;
+    use crate::netx::{connect_and_handshake, incoming, sent_to};
+    use crate::props::c12::{deliver, node_cfg};
+    use crate::seams::{ManualClock, MemIO};
+    use saito_core::core::msg::message::Message;
+    let client = key(13);
+    for paid_heights in [vec![3u64], vec![3, 11], vec![2, 3, 12]] {
+        rep.evaluations += 1;
+        let mut w = World::standard(10);
+        let mut t = 0usize;
+        let mut ok = true;
+        for id in 2..=12u64 {
+            let ts = w.child_ts(t, 0);
+            let mut txs = vec![];
+            if paid_heights.contains(&id) {
+                if let Some(s) = w.ledgers[t].unspent_of(&key(1).public).into_iter().filter(|s| s.block_id + 10 > id + 1).max_by_key(|s| (s.block_id, s.amount)).filter(|s| s.amount > 10_000) {
+                    txs.push(make_tx(&[s.clone()], &[(client.public, 700 + id), (key(1).public, s.amount - 700 - id)], &key(1), ts, b"to-client"));
+                }
+            }
+            if txs.is_empty() {
+                txs.push(make_tx(&[], &[(key(2).public, 0)], &key(1), ts, format!("filler{}", id).as_bytes()));
+            }
+            match w.build(t, ts, if id % 2 == 0 { Some(key(0)) } else { None }, txs, &format!("S{}", id)) {
+                Ok(b) => t = b,
+                Err(e) => {
+                    rep.machinery(format!("chain summary: {}", e));
+                    ok = false;
+                    break;
+                }
+            }
+        }
+        if !ok {
+            return;
+        }
+        let mut cfg = node_cfg(&w);
+        cfg.blockchain.initial_loading_completed = true;
+        let mut n = FullNode::new(key(9), cfg, MemIO::new(), ManualClock::new(5_000_000));
+        let _ = n.init();
+        for i in w.path(t) {
+            let _ = deliver(&mut n, &w.blocks[i].bytes);
+        }
+        if n.tip().1 != w.blocks[t].hash {
+            rep.machinery("chain summary: the serving node did not reach the tip".into());
+            return;
+        }
+        let pruned = n.blockchain.try_read().unwrap().blocks.values().filter(|b| b.block_type == saito_core::core::consensus::block::BlockType::Pruned).count();
+        if pruned == 0 {
+            rep.machinery("chain summary: no block of the serving node has dropped its transactions".into());
+        }
+        if let Err(e) = connect_and_handshake(&mut n, 5, &client, "") {
+            rep.machinery(format!("chain summary: handshake: {}", e));
+            return;
+        }
+        let ctx = json!({"paid_heights": paid_heights});
+        let o = n.net(incoming(5, &Message::GhostChainRequest(0, [0; 32], [0; 32])));
+        if !o.is_done() {
+            rep.violate("chain-summary/abort", o.label(), ctx.clone());
+            continue;
+        }
+        let out = n.io.take_outbox();
+        let Some(ghost) = sent_to(&out, 5).into_iter().find_map(|m| if let Message::GhostChain(g) = m { Some(g) } else { None }) else {
+            rep.violate("chain-summary/no-answer", "the node did not answer the light client's request".into(), ctx.clone());
+            continue;
+        };
+        for (i, id) in ghost.block_ids.iter().enumerate() {
+            let Some(bi) = w.path(t).into_iter().find(|&b| w.blocks[b].id == *id) else { continue };
+            let mut full = decode_block(&w.blocks[bi].bytes);
+            let _ = full.generate();
+            let lite = full.generate_lite_block(vec![client.public]);
+            let carries = lite.transactions.iter().any(|t| t.transaction_type != TransactionType::SPV && (t.from.iter().any(|s| s.public_key == client.public) || t.to.iter().any(|s| s.public_key == client.public)));
+            if ghost.txs[i] != carries {
+                rep.violate(if carries { "chain-summary/listed-transaction-not-flagged" } else { "chain-summary/flagged-without-a-listed-transaction" }, format!("height {}: the summary says {} but the lite block for the client's key {}", id, ghost.txs[i], if carries { "carries a transaction" } else { "carries none" }), ctx.clone());
+            } else {
+                rep.outcome(if carries { "chain-summary:flag-true-and-lite-block-carries-a-transaction" } else { "chain-summary:flag-false-and-nothing-to-fetch" });
+            }
+        }
+    }
+}
+
 pub fn main(tier: Tier, _replay: Option<String>) -> i32 {
     let mut rep = Report::new("C18", tier.clone(), "exploration");
     let nmax = if tier.thorough { 11 } else { 8 };
@@ -235,5 +319,8 @@ pub fn main(tier: Tier, _replay: Option<String>) -> i32 {
         Err(e) => rep.machinery(format!("base block: {}", e)),
     }
     rep.required_outcomes.push("all-header-fields-projected".into());
+    chain_summary(&mut rep);
+    rep.required_outcomes.push("chain-summary:flag-true-and-lite-block-carries-a-transaction".into());
+    rep.required_outcomes.push("chain-summary:flag-false-and-nothing-to-fetch".into());
     rep.finish()
 }
